@@ -243,6 +243,24 @@ def check_coercion(ctx):
         ctx.check("C11.C", f"_get_create_request:{f}:coerced-to-enum", f in coerced,
                   f"consumers treat LinkLayerCreate.{f} as an enum ({sorted(uses[f])}) but _get_create_request leaves the integer that came from the argument array: "
                   f"the link-layer conversion fails (or compares an int with an enum member)", ex.loc(g), sample={"field": f, "used_as": sorted(uses[f]), "coerced_to": coerced.get(f)})
+    # _get_create_request zips (arguments, fields, defaults): zip stops at its shortest operand, so there must be one default per field,
+    # and the default at a field's position must be of that field's kind
+    qm = repo.module("netqasm.qlink_compat")
+    dval = None
+    for st in qm.tree.body:
+        if isinstance(st, ast.Assign) and A.norm(st.targets[0]) == "LinkLayerCreate.__new__.__defaults__":
+            dval = ev.try_eval(st.value, qm)
+    n_def = len(dval) if isinstance(dval, (tuple, list)) else None
+    ctx.check("C11.C", "LinkLayerCreate:one-default-per-field", n_def == len(fields),
+              f"LinkLayerCreate has {len(fields)} fields but {n_def} defaults; _get_create_request zips arguments, fields and defaults, so the last {len(fields) - (n_def or 0)} field(s) "
+              f"({', '.join(fields[n_def:]) if n_def is not None else '?'}) never reach the request and arrive as their namedtuple default", "netqasm/qlink_compat.py",
+              sample={"fields": len(fields), "defaults": n_def})
+    if isinstance(dval, (tuple, list)) and n_def == len(fields):
+        for f in sorted(uses):
+            if f in fields and f in coerced:
+                d_ = dval[list(fields).index(f)]
+                ok_d = isinstance(d_, EnumMember) and d_.enum.split(":")[-1].split(".")[-1] == str(coerced[f]).split(".")[-1]
+                ctx.check("C11.C", f"LinkLayerCreate:default-of-{f}-is-a-{coerced[f]}", ok_d, f"the default at the position of `{f}` is {d_!r}; it is used when the argument array leaves the field undefined", "netqasm/qlink_compat.py", trivial=True)
     # arguments array -> kwargs in field order, starting with [remote_node_id, purpose_id]
     zips = [c for c in A.calls_in(g) if dotted(c.func) == "zip"]
     ok = bool(zips) and A.norm(zips[0].args[1]) == "LinkLayerCreate._fields" and A.norm(zips[0].args[0]) == "args"
@@ -510,6 +528,9 @@ def run(ctx):
     check_forwarding(ctx)
     check_operand_roles(ctx)
     check_result_arrays(ctx)
+    # 0 is an ordinary id / value / address: nothing int-valued may be tested by truthiness (nqsa/truth.py)
+    from .. import truth
+    truth.check(ctx, "C11.Z", ['netqasm.sdk.build_epr', 'netqasm.sdk.epr_socket', 'netqasm.qlink_compat', 'netqasm.backend.executor'])
 
 
 BEF = "netqasm/sdk/build_epr.py"
@@ -517,6 +538,9 @@ XF = "netqasm/backend/executor.py"
 ESF = "netqasm/sdk/epr_socket.py"
 BF = "netqasm/sdk/builder.py"
 SEEDS = [
+    dict(id="c11-defaults-one-short", file="netqasm/qlink_compat.py", expect="C11.C", construct="one-default-per-field",
+         old="LinkLayerCreate.__new__.__defaults__ = (  # type: ignore\n    0,\n    0,\n", new="LinkLayerCreate.__new__.__defaults__ = (  # type: ignore\n    0,\n"),
+
     dict(id="c11-rotation-under-elif-of-random-basis", file="netqasm/sdk/build_epr.py", expect="C11.S", construct="written-whenever-its-own-field-is-set",
          old="        if params.rotations_remote != (0, 0, 0):\n", new="        if params.random_basis_remote:\n            pass\n        elif params.rotations_remote != (0, 0, 0):\n"),
     dict(id="c11-max-time-only-for-keep", file="netqasm/sdk/build_epr.py", expect="C11.S", construct="written-whenever-its-own-field-is-set",
